@@ -202,9 +202,11 @@ impl Expr {
         match self {
             Self::Number(n) => Ok(*n),
             Self::Variable(name) => {
+                // A variable bound only inside a `while` body that never ran is known at
+                // parse time but has no value here
                 let value = ctx
                     .get(name)
-                    .expect("Variable not found. This should have been found at parse time");
+                    .ok_or_else(|| ExprErrorKind::UnknownVariable(name.clone()))?;
                 if let crate::OutputValue::Value(n) = value {
                     Ok(n)
                 } else {
